@@ -400,6 +400,32 @@ fn body_ops<const B: usize, const L: usize>(c: &Case, rec: &mut Rec) -> R {
     let items: Vec<U<B, L>> = c.l.iter().map(|v| mk::<B, L>(v)).collect();
     rec.class(pair_class(c.n.first().copied().unwrap_or(99)));
 
+    // operator impls with a primitive right-hand side and comparisons with primitives: the
+    // pinned tree has none (probes resolve to the fallback); a tree that adds one must agree with
+    // the integers (judged only when the primitive fits the width, except for comparisons)
+    {
+        let bl = b.as_limbs();
+        let p64 = bl.first().copied().unwrap_or(0);
+        let p128 = p64 as u128 | (bl.get(1).copied().unwrap_or(0) as u128) << 64;
+        let p128 = if c.n.first() == Some(&3) { p64 as u128 } else { p128 };
+        if let Some(rs) = vcore::optional_prim_ops!(B, &c.l[0], p64, p128; [1, 8, 63, 64, 65, 127, 128, 129, 192, 256]) {
+            let an = num(&a);
+            for (i, r) in rs.iter().enumerate() {
+                let Some(r) = r else {
+                    rec.class("optional_primitive_operand_impl:absent");
+                    continue;
+                };
+                rec.class("optional_primitive_operand_impl:present");
+                let fits = if i < 8 || i == 16 || i == 18 { (p64 as u128) < (1u128 << B.min(127)) || B >= 64 } else { B >= 128 || p128 < (1u128 << B.min(127)) };
+                if !fits && i < 16 {
+                    continue;
+                }
+                let e = vcore::optional::expected(i, &an, p64, p128, B);
+                rec.ensure(vcore::optional::NAMES[i], "differs_from_integers", *r == e, || format!("a = {}, primitive = {}: got {r:?} expected {e:?}", hex(&an), if i < 8 || i == 16 || i == 18 { p64 as u128 } else { p128 }))?;
+            }
+        }
+    }
+
     // inherent references
     let r_add = catch(|| a.wrapping_add(b));
     let r_sub = catch(|| a.wrapping_sub(b));
@@ -1150,7 +1176,7 @@ fn main() {
     selftest();
     let spec = PropSpec {
         id: "C20",
-        rule_text: "Differential inside the library: reference = inherent Uint method (or plain ==,<,>; limb-wise &|^ and a byte-reversal oracle computed by the harness), subject = every facade. Rules: ops (six shapes of + - * / % & | ^, Neg/Not val/ref, Sum/Product over value and reference iterators incl. empty), shifts (<< >> value/ref/assign/ref-assign for usize,u8,u16,u32,u64,isize,i8,i16,i32,i64 with non-negative amounts and for Uint amounts that fit usize or are >= 2^64 with a small low limb (reference: the inherent method at the amount saturated to usize::MAX); Bits shift operators and forwarded shift/rotate methods; CheckedShl/Shr, WrappingShl/Shr, PrimInt rotate/signed/unsigned shifts), bits (all other forwarded Bits methods, constants, From/Into, Default, Eq/Hash, FromStr, from_str_radix, byte constructors, Index, Not, & | ^ shapes; Zeroize), num_traits (all non-shift impls incl. default methods with integer targets), num_integer (13 implemented methods + gcd_lcm + divides), subtle (ct_eq/ne/gt/lt, select/assign/swap, conditional_negate, bit_ct). Inputs: operand pairs from 9 classes (independent boundary-alphabet values, b=2^B-a+{-1,0,1}, a==b, b==0, a==0, one-limb b, b=a+-1, two limbs changed in opposite directions, both shifted down), amounts from index_around(BITS,70) plus integer-type truncation boundaries and huge values, byte strings around the canonical encodings, digit strings in radix 0..=64 and beyond. Non-trivial: the case discriminates, i.e. at least one plausible wrong forward (wrapping/checked/saturating sibling, swapped operands, div<->rem, shl<->shr, add<->sub, and<->or<->xor, rotate left<->right, le<->be, truncated amount, signed<->unsigned conversion ...) gives a different result than the correct inherent method on this input; per-kind counts are the `disc:*` classes.",
+        rule_text: "Differential inside the library: reference = inherent Uint method (or plain ==,<,>; limb-wise &|^ and a byte-reversal oracle computed by the harness), subject = every facade. Rules: ops (optional impls with a primitive operand - Uint op u64/u128 for + - * / % & | ^ and PartialEq/PartialOrd with u64/u128 - probed by autoref dispatch at 10 widths and compared with the integers when a tree has them; six shapes of + - * / % & | ^, Neg/Not val/ref, Sum/Product over value and reference iterators incl. empty), shifts (<< >> value/ref/assign/ref-assign for usize,u8,u16,u32,u64,isize,i8,i16,i32,i64 with non-negative amounts and for Uint amounts that fit usize or are >= 2^64 with a small low limb (reference: the inherent method at the amount saturated to usize::MAX); Bits shift operators and forwarded shift/rotate methods; CheckedShl/Shr, WrappingShl/Shr, PrimInt rotate/signed/unsigned shifts), bits (all other forwarded Bits methods, constants, From/Into, Default, Eq/Hash, FromStr, from_str_radix, byte constructors, Index, Not, & | ^ shapes; Zeroize), num_traits (all non-shift impls incl. default methods with integer targets), num_integer (13 implemented methods + gcd_lcm + divides), subtle (ct_eq/ne/gt/lt, select/assign/swap, conditional_negate, bit_ct). Inputs: operand pairs from 9 classes (independent boundary-alphabet values, b=2^B-a+{-1,0,1}, a==b, b==0, a==0, one-limb b, b=a+-1, two limbs changed in opposite directions, both shifted down), amounts from index_around(BITS,70) plus integer-type truncation boundaries and huge values, byte strings around the canonical encodings, digit strings in radix 0..=64 and beyond. Non-trivial: the case discriminates, i.e. at least one plausible wrong forward (wrapping/checked/saturating sibling, swapped operands, div<->rem, shl<->shr, add<->sub, and<->or<->xor, rotate left<->right, le<->be, truncated amount, signed<->unsigned conversion ...) gives a different result than the correct inherent method on this input; per-kind counts are the `disc:*` classes.",
         assumptions: vec![
             "the inherent methods are the reference (decided independently by C01-C13); a defect shared by facade and inherent method is invisible here by construction",
             "x86-64 little-endian target only (to_ne/from_ne = le, to_be/from_be = swap_bytes)",
